@@ -307,6 +307,25 @@ def neighbours(recs, sizes, bounded):
     return out
 
 
+def far_datasets(recs, sizes, bounded):
+    """datasets far from `recs` (reachable through a chain of neighbours).  The flow relation of C06 is transitive
+    along such a chain - every link is a pair of neighbouring datasets forced to observe the same releases - so it must
+    hold for these pairs too, and a data-dependent branch is far more likely to flip on them than on one-record changes."""
+    cs = cells(sizes)
+    n = len(recs)
+    out = []
+    if bounded:
+        out.append(('far', 'all-first', [cs[0]] * n))
+        out.append(('far', 'all-last', [cs[-1]] * n))
+        out.append(('far', 'shifted', [cs[(cs.index(tuple(r)) + len(cs) // 2 + 1) % len(cs)] for r in recs]))
+    else:
+        out.append(('far', 'one-record', [cs[-2]]))
+        out.append(('far', 'uniform-x5', [c for c in cs for _ in range(5)]))
+        out.append(('far', 'all-last-x2', [cs[-1]] * (2 * n)))
+        out.append(('far', 'shifted', [cs[(cs.index(tuple(r)) + len(cs) // 2 + 1) % len(cs)] for r in recs]))
+    return out
+
+
 def make_dataset(recs, sizes):
     import pandas as pd
     from mbi import Dataset, Domain
@@ -453,11 +472,13 @@ def run_neighbour(spec, recs, sizes, trace, seed):
     return {'diverged': None, 'events': trace_of(env), 'out': out}
 
 
-def explore_spec(spec, dsname, sizes, bound, seed, noise_alts, cap=None, only_prefix=None):
+def explore_spec(spec, dsname, sizes, bound, seed, noise_alts, cap=None, only_prefix=None, far=False):
     """yields (ctrl, base, [(tag, what, neighbour result)])"""
     recs = base_datasets(sizes)[dsname]
     fn, bounded, unit = mechanism_call(spec)
     nbs = neighbours(recs, sizes, bounded)
+    if far:
+        nbs = nbs + far_datasets(recs, sizes, bounded)
 
     def run(prefix):
         return run_base(spec, recs, sizes, prefix, seed, noise_alts)
